@@ -839,6 +839,51 @@ def rule_r15(prog, res):
     res.floor('R15', 'object renderings in _to_dict_value', n, 1)
 
 
+def rule_r16(prog, res):
+    res.rule('R16', 'the dict entry point takes the message from under its '
+             'name whenever the reader it hands it to does not unwrap: for '
+             'every bare argument that is not a plain object (primitive, '
+             'array), whatever ignore_wrappers says')
+    from ..flow import entails
+    h = prog.cls('spyne.protocol.dictdoc.hier:HierDictDocument')
+    f = h.methods.get('deserialize')
+    if f is None:
+        raise AnalysisError('HierDictDocument.deserialize', 'not found')
+    unwraps = [a for a in walk_no_defs(f.node) if isinstance(a, ast.Assign)
+               and isinstance(a.value, ast.Call) and call_name(a.value) ==
+               'get' and len(a.targets) == 1 and isinstance(
+                   a.targets[0], ast.Name) and unparse(a.value.func.value) ==
+               a.targets[0].id and a.value.args and
+               unparse(a.value.args[0]) == 'class_name']
+    res.floor('R16', 'message unwrapping in HierDictDocument.deserialize',
+              len(unwraps), 1)
+    for a in unwraps:
+        par = a._parent
+        where = '%s:%d' % (f.module.relpath, a.lineno)
+        if not isinstance(par, ast.If) or a not in par.body:
+            res.ob('R16', where, 'deserialize unwraps the message '
+                   'unconditionally', 'ok')
+            continue
+        test = par.test
+        cases = [('not issubclass(body_class, ComplexModelBase)',
+                  'primitive', '{"bare_int": 5} is read as the value'),
+                 ('issubclass(body_class, Array)', 'array',
+                  'the array reader iterates over the keys of the request')]
+        for cond, what, effect in cases:
+            ok = entails([(ast.parse(cond, mode='eval').body, True)], test)
+            res.ob('R16', where, 'deserialize unwraps a bare %s message '
+                   '%s' % (what, 'always' if ok else 'only under %s' %
+                           unparse(test)), 'ok' if ok else 'VIOLATED')
+            if not ok:
+                res.finding('R16', 'HierDictDocument.deserialize|bare-%s-'
+                            'not-unwrapped' % what, where, 'the message of a '
+                            'bare method with a %s argument is only taken '
+                            'from under the method name when %s: with '
+                            'ignore_wrappers=False %s and no request document '
+                            'can invoke the method' % (what, unparse(test),
+                                                       effect))
+
+
 def run(prog, res, tier):
     res.run_rule(rule_r1, prog, res)
     res.run_rule(rule_r2, prog, res)
@@ -855,6 +900,7 @@ def run(prog, res, tier):
     res.run_rule(rule_r13, prog, res)
     res.run_rule(rule_r14, prog, res)
     res.run_rule(rule_r15, prog, res)
+    res.run_rule(rule_r16, prog, res)
 
 
 _H = 'spyne/protocol/dictdoc/hier.py'
@@ -863,6 +909,19 @@ _J = 'spyne/protocol/json.py'
 _Y = 'spyne/protocol/yaml.py'
 
 MUTANTS = [
+    Mutant('bare-leaf-unwrapped-only-without-wrappers', 'R16', 'fire', _H,
+           in_func('HierDictDocument.deserialize',
+                   "            if self.ignore_wrappers or issubclass("
+                   "body_class, Array) \\\n                             or not "
+                   "issubclass(body_class, ComplexModelBase):\n",
+                   "            if self.ignore_wrappers:\n"),
+           'not-unwrapped'),
+    Mutant('bare-array-not-unwrapped', 'R16', 'fire', _H,
+           in_func('HierDictDocument.deserialize',
+                   "            if self.ignore_wrappers or issubclass("
+                   "body_class, Array) \\\n",
+                   "            if self.ignore_wrappers \\\n"),
+           'bare-array-not-unwrapped'),
     Mutant('none-complex-as-empty-object', 'R15', 'fire', _H,
            in_func('HierDictDocument._to_dict_value',
                    "        if inst is None and issubclass(cls, "
